@@ -347,7 +347,7 @@ func engRoute(seed int64, tier string, args []string, out *sx.Out) {
 		rtProducts(rng, tier, out)
 		return
 	}
-	hist, steps := 2000, 25
+	hist, steps := 1200, 25
 	if tier == "thorough" {
 		hist, steps = 20000, 40
 	}
